@@ -173,8 +173,11 @@ def _decay(t):
             for iso in ([base] if core.isisotope(base) else [base[i] for i in base.isotopes]):
                 for ai in getattr(iso, "neutron_activation", []):
                     ai.Thalf_hrs = ai.Thalf_hrs * t["edit_thalf"]
+    akw = {}
+    if t.get("abundance") == "IAEA1987":          # the other abundance table the module offers
+        akw["abundance"] = activation.IAEA1987_isotopic_abundance
     ref = activation.Sample(f, c["mass"])
-    ref.calculate_activation(_env(c), exposure=c["exposure"], rest_times=[0])
+    ref.calculate_activation(_env(c), exposure=c["exposure"], rest_times=[0], **akw)
     products = [{"A0": dec.to_dec(v[0]), "Thalf": dec.to_dec(ai.Thalf_hrs)} for ai, v in ref.activity.items()]
     total0 = sum(v[0] for v in ref.activity.values())
     results = {}
@@ -182,12 +185,12 @@ def _decay(t):
         s = activation.Sample(f, c["mass"])
         if t.get("reuse"):
             # the Sample object has a history: activated under other conditions and queried, then activated again
-            s.calculate_activation(_env(c), exposure=c["exposure"] * t["reuse"], rest_times=rests)
+            s.calculate_activation(_env(c), exposure=c["exposure"] * t["reuse"], rest_times=rests, **akw)
             try:
                 s.decay_time(total0 * 0.5 if total0 > 0 else 1.0)
             except Exception:
                 pass
-        s.calculate_activation(_env(c), exposure=c["exposure"], rest_times=rests)
+        s.calculate_activation(_env(c), exposure=c["exposure"], rest_times=rests, **akw)
         for ti, frac in enumerate(t["targets"]):
             target = total0 * frac
             if target <= 0:
